@@ -65,7 +65,10 @@ def ops_for(rep):
 
 
 def type_record(rid, u, rep):
-    st = ["using U = %s; using R = %s; using Q = au::Quantity<U, R>;" % (u.cpp, rep)]
+    st = ["using U = %s; using R = %s; using Q = au::Quantity<U, R>; using P = au::QuantityPoint<U, R>;" % (u.cpp, rep),
+          '{ const R r0{}; Q q{}; P p{}; constexpr Q cq{}; constexpr P cp{}; constexpr R cqv = cq.in(U{}); constexpr R cpv = cp.in(U{}); '
+          'vf_b("def_in", c13::bits_eq(q.in(U{}), r0) && c13::bits_eq(p.in(U{}), r0) && c13::bits_eq(cqv, r0) && c13::bits_eq(cpv, r0) '
+          '&& c13::bits_eq(q.in(%s), r0) && c13::bits_eq(p.in(%s), r0)); }' % (u.maker, u.ptmaker)]
     for op in ops_for(rep):
         au, raw = op.au.format(**_DECL), op.raw.format(**_DECL)
         k = op.oid
@@ -101,12 +104,13 @@ def layout_record(rid, u, rep):
                   'vf_b("%s_tdtor", std::is_trivially_destructible<%s>::value); '
                   'vf_b("%s_stdlayout", std::is_standard_layout<%s>::value);'
                   % (tag, T, tag, T, tag, T, tag, T, tag, T))
-        # value-initialised, default-initialised into a 0xAA-poisoned buffer, and constexpr default
-        st.append('{ const R r0{}; %s v{}; alignas(%s) unsigned char buf[sizeof(%s)]; std::memset(buf, 0xAA, sizeof buf); '
-                  '%s *d = new (buf) %s; constexpr %s c{}; constexpr R cv = c.in(U{}); '
-                  'vf_b("%s_def_value", c13::bits_eq(v.in(U{}), r0) && std::memcmp(&v, &r0, c13::vbytes<R>()) == 0); '
-                  'vf_b("%s_def_default", c13::bits_eq(d->in(U{}), r0) && std::memcmp(buf, &r0, c13::vbytes<R>()) == 0); '
-                  'vf_b("%s_def_constexpr", c13::bits_eq(cv, r0)); }'
+        # value-initialised, default-initialised into a 0xAA-poisoned buffer, and constexpr default: the object
+        # representation must be R{}'s (same size is a separate fact; read through memcpy at offset 0)
+        st.append('{ const R r0{}; %s v{}; alignas(%s) unsigned char buf[sizeof(%s) + sizeof(R)]; std::memset(buf, 0xAA, sizeof buf); '
+                  '%s *d = new (buf) %s; (void)d; static constexpr %s c{}; '
+                  'vf_b("%s_def_value", std::memcmp(&v, &r0, c13::vbytes<R>()) == 0); '
+                  'vf_b("%s_def_default", std::memcmp(buf, &r0, c13::vbytes<R>()) == 0); '
+                  'vf_b("%s_def_constexpr", std::memcmp(&c, &r0, c13::vbytes<R>()) == 0); }'
                   % (T, T, T, T, T, T, tag, tag, tag))
     return (rid, st)
 
